@@ -59,7 +59,7 @@ def cfg(props=True, W=0, collectors=(), setmodes=(), setdays=(), xs=(0,), rates=
     t = 'SPECIFICATION Spec\nCHECK_DEADLOCK FALSE\n'
     if props:
         t += ('INVARIANTS TypeOK OneRequestPerWeek RequestsRecorded\n'
-              'PROPERTIES RequestOnlyWhenOn UploadableOnlyIf SentOnlyIf OffChangesNothing OtherBehavesLocal SetGet\n')
+              'PROPERTIES RequestOnlyWhenOn UploadableOnlyIf SentOnlyIf OffChangesNothing OtherBehavesLocal SetGet NoNewReadyLeftBehind\n')
     t += 'CONSTANTS\n W = %d\n Collectors = {%s}\n' % (W, ', '.join('"%s"' % c for c in collectors))
     t += ' ModeFiles <- MCModeFiles\n InitFiles <- MCInitFiles\n InitReports <- MCInitReports\n Starts <- MCStarts\n ClockPoints <- MCClock\n'
     t += ' SetModes = {%s}\n SetDays = %s\n Xs = %s\n Rates = %s\n' % (', '.join(tlaval.to_tla(m) for m in setmodes), iset(setdays), iset(xs), iset(rates))
